@@ -312,6 +312,16 @@ def check(ctx):
         if v is None or v.kind != "lod":
             ctx.ob("EFF-3", m, "return value of __deepcopy__", m.node, False,
                    f"__deepcopy__ does not return a ListOfDicts ({v!r})")
+    gi = repo.fn(f"{LOD}.__getitem__")
+    from ..forms import value_cases
+    cases = value_cases(gi, "return")
+    lst_cases = [(leaf, f) for _, leaf, f in cases if any(k == "T" and t.startswith("isinstance(") and "list" in t for k, t in f)]
+    ok = bool(lst_cases) and all(isinstance(leaf, ast.Call) and isinstance(leaf.func, ast.Attribute) and leaf.func.attr == "_new"
+                                 and norm(leaf.func.value) == gi.params[0] for leaf, f in lst_cases)
+    ctx.ob("EFF-3", gi, "slice -> self._new(value)", gi.node, ok,
+           "a slice shares the receiver's item dicts and is built by self._new: the predecessor link is recorded" if ok else
+           "a slice is returned without going through self._new: it shares the receiver's item dicts but has no predecessor, so an "
+           "editor called on the slice never marks the sliced list obsolete", clause="every list from which it was obtained reports itself obsolete")
     # decorator: wrapper returns self._new(value) on every path
     nfg = repo.fn("dataiter.deco.new_from_generator.wrapper")
     rets = [n for n in ast.walk(nfg.node) if isinstance(n, ast.Return)]
